@@ -279,6 +279,9 @@ pub struct FakeIrrd {
     pub addr: SocketAddr,
     /// (connection number, query) in arrival order
     pub log: Arc<Mutex<Vec<(usize, String)>>>,
+    /// the database (and "ok" | "close") served to connections accepted from now on: a daemon-mode scenario
+    /// swaps it between the runs of one agent process
+    pub live: Arc<Mutex<(IrrDb, String)>>,
 }
 
 /// `mode`: "ok" | "refuse" (listener closed at once) | "close" (accept, then close before any answer)
@@ -286,22 +289,24 @@ pub fn start_irrd(db: IrrDb, mode: &str) -> FakeIrrd {
     let listener = StdListener::bind(("127.0.0.1", 0)).expect("bind irrd");
     let addr = listener.local_addr().unwrap();
     let log: Arc<Mutex<Vec<(usize, String)>>> = Arc::new(Mutex::new(Vec::new()));
+    let live = Arc::new(Mutex::new((db, mode.to_string())));
     if mode == "refuse" {
         drop(listener);
-        return FakeIrrd { addr, log };
+        return FakeIrrd { addr, log, live };
     }
     let log2 = log.clone();
-    let mode = mode.to_string();
+    let live2 = live.clone();
     std::thread::spawn(move || {
         let mut nconn = 0usize;
         for stream in listener.incoming() {
             let Ok(stream) = stream else { continue };
             nconn += 1;
-            if mode == "close" {
+            let (db, mode) = live2.lock().unwrap().clone();
+            if mode == "close" || mode == "refuse" {
                 drop(stream);
                 continue;
             }
-            let (db, log, n) = (db.clone(), log2.clone(), nconn);
+            let (db, log, n) = (db, log2.clone(), nconn);
             std::thread::spawn(move || {
                 let _ = stream.set_nodelay(true);
                 let mut w = stream.try_clone().expect("clone");
@@ -323,7 +328,7 @@ pub fn start_irrd(db: IrrDb, mode: &str) -> FakeIrrd {
             });
         }
     });
-    FakeIrrd { addr, log }
+    FakeIrrd { addr, log, live }
 }
 
 // =============================================================================================
@@ -386,6 +391,19 @@ pub fn denote(filter: &str) -> (Vec<String>, bool) {
     let (root, rl, maxl) = if v6 { (U6_ROOT.0, U6_ROOT.1, U6_MAXLEN) } else { (U4_ROOT.0 as u128, U4_ROOT.1, U4_MAXLEN) };
     if l > bits || lo > hi || hi > bits || lo < l {
         return (vec![], true);
+    }
+    // second universe, for policies with thousands of ranges: the /24s under 172.16.0.0/12 and the /48s under
+    // 2001:db9::/36 (4096 atoms each); a filter there denotes the atoms of exactly that length it covers
+    let (broot, brl, blen): (u128, u8, u8) = if v6 { (0x2001_0db9_0000_0000_0000_0000_0000_0000, 36, 48) } else { (0xac10_0000, 12, 24) };
+    if l >= brl && (a & mask(bits, brl)) == broot {
+        let mut atoms = Vec::new();
+        if l <= blen && lo <= blen && blen <= hi {
+            let base = a & mask(bits, l);
+            for k in 0..(1u128 << (blen - l)) {
+                atoms.push(atom_name(v6, base | (k << (bits - blen) as u32), blen));
+            }
+        }
+        return (atoms, lo != blen || hi != blen);
     }
     let mut atoms = Vec::new();
     for (ua, ul) in universe(v6) {
@@ -958,6 +976,11 @@ pub struct JunosState {
     pub eph: Eph,
     pub log: Vec<Value>,
     pub sessions: usize,
+    /// what the router does to the requests of sessions accepted from now on (a daemon-mode scenario changes it
+    /// between the runs of one agent process)
+    pub faults: Vec<Fault>,
+    /// the router is unreachable: connections are dropped as soon as they are accepted
+    pub refuse: bool,
 }
 
 pub struct FakeJunos {
@@ -1153,14 +1176,26 @@ pub async fn start_junos(
 ) -> FakeJunos {
     let listener = TcpListener::bind(("127.0.0.1", 0)).await.unwrap();
     let addr = listener.local_addr().unwrap();
-    let state = Arc::new(Mutex::new(JunosState { running, eph, log: Vec::new(), sessions: 0 }));
+    let state = Arc::new(Mutex::new(JunosState { running, eph, log: Vec::new(), sessions: 0, faults, refuse: false }));
     let st = state.clone();
-    let (faults2, case2) = (faults.clone(), case.clone());
+    let case2 = case.clone();
     drop(tokio::spawn(async move {
         loop {
             let Ok((tcp, _)) = listener.accept().await else { break };
             let _ = tcp.set_nodelay(true);
-            let (st, faults, acceptor, case) = (st.clone(), faults.clone(), acceptor.clone(), case.clone());
+            let (faults, refuse) = {
+                let g = st.lock().unwrap();
+                (g.faults.clone(), g.refuse)
+            };
+            if refuse {
+                let mut g = st.lock().unwrap();
+                g.sessions += 1;
+                let (n, sess) = (g.log.len() + 1, g.sessions);
+                g.log.push(json!({"ev": "session_end", "committed": false, "refused": true, "case": case, "session": sess, "seq": n}));
+                drop(tcp);
+                continue;
+            }
+            let (st, acceptor, case) = (st.clone(), acceptor.clone(), case.clone());
             drop(tokio::spawn(async move {
                 let Ok(stream) = acceptor.accept(tcp).await else { return };
                 serve_session(stream, st, faults, case, style).await;
@@ -1169,12 +1204,13 @@ pub async fn start_junos(
     }));
     let plain = TcpListener::bind(("127.0.0.1", 0)).await.unwrap();
     let plain_addr = plain.local_addr().unwrap();
-    let (st, faults, case) = (state.clone(), faults2, case2);
+    let (st, case) = (state.clone(), case2);
     drop(tokio::spawn(async move {
         loop {
             let Ok((tcp, _)) = plain.accept().await else { break };
             let _ = tcp.set_nodelay(true);
-            let (st, faults, case) = (st.clone(), faults.clone(), case.clone());
+            let faults = st.lock().unwrap().faults.clone();
+            let (st, case) = (st.clone(), case.clone());
             drop(tokio::spawn(async move {
                 serve_session(tcp, st, faults, case, style).await;
             }));
@@ -1215,6 +1251,7 @@ async fn serve_session<S: tokio::io::AsyncRead + tokio::io::AsyncWrite + Unpin>(
         4000 + sess as u32,
     );
     if stream.write_all(hello.as_bytes()).await.is_err() {
+        log(&st, json!({"ev": "session_end", "committed": false, "cut": true}));
         return;
     }
     let _ = stream.flush().await;
@@ -1322,7 +1359,8 @@ async fn serve_session<S: tokio::io::AsyncRead + tokio::io::AsyncWrite + Unpin>(
                     }
                     ev["den"] = den_map(fs);
                 }
-                let failing = matches!(fault.as_ref().map(|f| f.kind.as_str()), Some("rpc-error") | Some("delayed-error") | Some("malformed") | Some("wrong-id") | Some("no-ok") | Some("close-before"));
+                let failing = matches!(fault.as_ref().map(|f| f.kind.as_str()), Some("rpc-error") | Some("delayed-error") | Some("malformed") | Some("wrong-id") | Some("no-ok") | Some("close-before")
+                                       | Some("error+ok") | Some("ok+error") | Some("prefixed-error") | Some("warning+error"));
                 if !failing {
                     if let Some(s) = staged.as_mut() {
                         // override / update: what is loaded becomes the whole configuration of the instance
@@ -1386,6 +1424,7 @@ async fn serve_session<S: tokio::io::AsyncRead + tokio::io::AsyncWrite + Unpin>(
         if let Some(how) = fk.strip_prefix("mut:") {
             let raw = mutate_reply(&ok_reply, how);
             if stream.write_all(&raw).await.is_err() {
+                log(&st, json!({"ev": "session_end", "committed": false, "cut": true}));
                 return;
             }
             let _ = stream.flush().await;
@@ -1399,6 +1438,30 @@ async fn serve_session<S: tokio::io::AsyncRead + tokio::io::AsyncWrite + Unpin>(
                 delayed.push(err_reply);
                 vec![]
             }
+            // other shapes of a negative answer: the error next to the positive indication (either order), after a
+            // warning, and with the base namespace bound to a prefix
+            "error+ok" | "ok+error" | "warning+error" => {
+                let warning = RPC_ERROR.replace("<error-severity>error</error-severity>", "<error-severity>warning</error-severity>");
+                let inner = match fk.as_str() {
+                    "error+ok" => format!("{RPC_ERROR}<ok/>"),
+                    "ok+error" => format!("<ok/>{RPC_ERROR}"),
+                    _ => format!("{warning}{RPC_ERROR}"),
+                };
+                if kind == "load" {
+                    vec![format!("<rpc-reply message-id=\"{id}\" xmlns=\"{BASE_NS}\"><load-configuration-results>{inner}</load-configuration-results></rpc-reply>{EOM}")]
+                } else {
+                    vec![format!("<rpc-reply message-id=\"{id}\" xmlns=\"{BASE_NS}\">{inner}</rpc-reply>{EOM}")]
+                }
+            }
+            "prefixed-error" => {
+                let e = RPC_ERROR.replace("<rpc-error>", "<nc:rpc-error>").replace("</rpc-error>", "</nc:rpc-error>")
+                    .replace("<error-", "<nc:error-").replace("</error-", "</nc:error-");
+                if kind == "load" {
+                    vec![format!("<nc:rpc-reply message-id=\"{id}\" xmlns:nc=\"{BASE_NS}\"><nc:load-configuration-results>{e}<nc:load-error-count>1</nc:load-error-count></nc:load-configuration-results></nc:rpc-reply>{EOM}")]
+                } else {
+                    vec![format!("<nc:rpc-reply message-id=\"{id}\" xmlns:nc=\"{BASE_NS}\">{e}</nc:rpc-reply>{EOM}")]
+                }
+            }
             "malformed" => vec![format!("<rpc-reply message-id=\"{id}\" xmlns=\"{BASE_NS}\"><ok></rpc-reply>{EOM}")],
             "no-ok" => vec![format!("<rpc-reply message-id=\"{id}\" xmlns=\"{BASE_NS}\"></rpc-reply>{EOM}")],
             // the negative answer to a commit in Junos' own shape: the error sits inside <routing-engine>
@@ -1407,6 +1470,7 @@ async fn serve_session<S: tokio::io::AsyncRead + tokio::io::AsyncWrite + Unpin>(
             "close-before" => {
                 log(&st, json!({"ev": "srv_close", "when": "before-reply", "kind": kind}));
                 let _ = stream.shutdown().await;
+                log(&st, json!({"ev": "session_end", "committed": false, "cut": true}));
                 return;
             }
             "close-after" => vec![ok_reply],
@@ -1422,6 +1486,7 @@ async fn serve_session<S: tokio::io::AsyncRead + tokio::io::AsyncWrite + Unpin>(
         };
         for r in released {
             if stream.write_all(r.as_bytes()).await.is_err() {
+                log(&st, json!({"ev": "session_end", "committed": false, "cut": true}));
                 return;
             }
             let _ = stream.flush().await;
@@ -1429,6 +1494,7 @@ async fn serve_session<S: tokio::io::AsyncRead + tokio::io::AsyncWrite + Unpin>(
         if fk == "close-after" {
             log(&st, json!({"ev": "srv_close", "when": "after-reply", "kind": kind}));
             let _ = stream.shutdown().await;
+            log(&st, json!({"ev": "session_end", "committed": false, "cut": true}));
             return;
         }
         if kind == "close-session" {
